@@ -138,7 +138,7 @@ func (in *c02inst) anon(s string) string {
 }
 
 func (in *c02inst) Key() string {
-	return in.anon(lib.Canon(in.model) + "|" + core.VerifDumpJSON(in.loc.VerifState()) + "|" + lib.Canon(lib.Pairs(in.ctx, in.store, "L")))
+	return in.anon(lib.Canon(in.model) + "|" + core.VerifKeyJSON(in.loc.VerifState()) + "|" + lib.Canon(lib.Pairs(in.ctx, in.store, "L")))
 }
 
 func viol(sig, summary string, exp, obs interface{}) *lib.Violation {
